@@ -9,7 +9,7 @@ from collections import Counter
 from hypothesis import strategies as st
 
 from ..campaign import Result, case_digest
-from ..structural import SJob, SSched, SPure, quiet, STRUCT_ASSUMPTIONS
+from ..structural import SJob, SSched, SPure, quiet, STRUCT_ASSUMPTIONS, sparse_edges
 from .. import dotparse
 
 ID = 'C20'
@@ -36,7 +36,10 @@ DOT = '/usr/bin/dot' if os.path.exists('/usr/bin/dot') else None
 ALPHABET = ['a', 'b', 'Z', '0', ' ', ' ', '"', '"', '\n', '{', '}', '[', ']', ';', '=', ',',
             '-', '>', '<', ':', '#', '/', '*', 'é', 'ß', '中', '→', "'", '|', '.', '_']
 
-label_st = st.one_of(st.none(), st.sampled_from(['job', 'a b', 'x']),
+label_st = st.one_of(st.none(), st.sampled_from(['job', 'a b', 'x', '<lambda>', '<b>bold</b>',
+                                                 '<a<b>', '<>', '"quoted"', '{rec|ord}',
+                                                 'trailing space ', '->', '--', 'digraph',
+                                                 'node', '#comment', '/*c*/', '%d', '{}']),
                      st.lists(st.sampled_from(ALPHABET), min_size=1, max_size=8)
                      .map(''.join))
 
@@ -67,6 +70,18 @@ def node(draw, depth, budget):
 
 @st.composite
 def trees(draw):
+    if draw(st.integers(0, 59)) == 0:
+        # a wide flat scheduler: ids are 3 digits wide
+        n = draw(st.sampled_from([100, 130]))
+        seed = draw(st.integers(1, 2 ** 16))
+        members = [dict(kind='job', label=draw(label_st) if i < 3 else 'w%d' % i, glabel=None,
+                        critical=bool((i + seed) % 3 == 0), forever=bool((i + seed) % 7 == 0),
+                        hkey=(i * 7 + seed) % 16) for i in range(n)]
+        return dict(kind='sched', members=members,
+                    edges=[e for e in sparse_edges(n, seed) if e[1] - e[0] < 40],
+                    order=sorted(range(n), key=lambda i: (i * 7919 + seed) % 1009),
+                    label=None, glabel=None, critical=False, forever=False, hkey=0,
+                    cls=draw(st.sampled_from(['pure', 'nestable'])))
     budget = [12]
     top = draw(node(0, budget))
     top['cls'] = draw(st.sampled_from(['pure', 'nestable']))
